@@ -15,6 +15,8 @@ abbrev R (α : Type) := Except Outcome α
 /-- Legacy field attribute parameters used by these derives. -/
 inductive Param where
   | ignore | forward | owned | ref | refMut
+  /-- `not(forward)`: accepted wherever `forward` is; switches an inherited `forward` off. -/
+  | notForward
   deriving Repr, DecidableEq, Inhabited
 
 structure Meta where
@@ -32,6 +34,7 @@ def metaOf : Option (List Param) → Meta
       match p with
       | .ignore => { m with enabled := some false }
       | .forward => { m with forward := some true }
+      | .notForward => { m with forward := some false }
       | .owned => { m with owned := some true }
       | .ref => { m with ref := some true }
       | .refMut => { m with refMut := some true }) { enabled := some true }
